@@ -317,7 +317,8 @@ def main():
                     elif res != rs[bad]:
                         p.append("the first failing argument's error is not the result")
                     return p
-                scenario("Arguments (AllArguments)", f_args, n, 0, False, results, True, spec_args)
+                for start in range(0, n + 1):
+                    scenario("Arguments (AllArguments)", f_args, n, start, False, results, True, spec_args)
     except Unsupported as u:
         status = 2
         print("INCONCLUSIVE: unsupported: %s" % u)
